@@ -33,9 +33,10 @@ def build(chk):
     addslack = eng.method('add_integer_slack_to_inequality', first_param='&mut v1::Instance')
     B, rd = Build(chk), Rd(chk)
     coefs = COEFS_QUICK + (COEFS_MORE if chk.tier == 'thorough' else [])
+    REPS = coefs if chk.tier == 'thorough' else [c for n, c in enumerate(coefs) if n % 3 == 1]
     chk.bounds = {'constraint functions': 'f = c1*x1 + c2*x2 + c12*x1*x2 + k for the listed concrete coefficient tuples (integers and dyadic rationals, exact in binary64): ' +
                   '; '.join(str(tuple(str(x) for x in c)) for c in coefs),
-                  'variable listing': 'ids 1,2,9 listed ascending or as 2,9,1', 'variables': 'x1, x2 integer or binary (kind by explored choice; continuous, and for x1 also semi-continuous / semi-integer / unspecified, for the rejection path); integer box endpoints symbolic in [-3,3] with lower <= upper; '
+                  'variable listing': 'ids 1,2,9 listed ascending or as 2,9,1', 'representations': 'normalised; a repeated id in the linear part / mirrored quadratic entries; polynomial arm with unsorted ids and a repeated monomial (quick: every third tuple, thorough: all)', 'variables': 'x1, x2 integer or binary (kind by explored choice; continuous, and for x1 also semi-continuous / semi-integer / unspecified, for the rejection path); integer box endpoints symbolic in [-3,3] with lower <= upper; '
                   'binary variables without explicit bound', 'points': 'x1, x2 symbolic integers in the box: the solver covers every lattice point and (through the closed form s = -f(x)/b) every slack value',
                   'limits': 'max_integer_range and slack_upper_bound from {1, 3, 1000} resp. {1, 4}'}
     chk.assumptions += ['R-model; coefficients are concrete because Rational64::approximate_float (continued fractions on f64) is a concrete library model, validated differentially '
@@ -61,10 +62,21 @@ def build(chk):
             ends.append((lo_i, hi_i))
             xs.append(x)
         monos = [([1], c1), ([2], c2), ([1, 2], c12), ([], k)]
-        if coef[2] != 0:
-            fn = chk.M.function('Quadratic', chk.M.quadratic([(1, 2, c12)], chk.M.linear([(1, c1), (2, c2)], k)))
+        # representation of the same function (wire-legal, not normalised), by explored choice for the tuples in REPS:
+        # 1 = a repeated id in the linear part / mirrored quadratic entries, 2 = polynomial arm with unsorted ids and a repeated monomial
+        rep = P.choose(3) if coef in REPS else 0
+        half = lambda c: fin(c.r / 2)
+        lin_terms = [t for t in [(1, c1), (2, c2)] if t[1].r != 0]
+        if rep == 1 and coef[0] != 0:
+            lin_terms = [(1, fin(c1.r - 1)), (2, c2), (1, fin(Fraction(1)))]
+        if rep == 2:
+            pm = [([2, 1], half(c12)), ([1], c1), ([], k), ([2], c2), ([1, 2], half(c12))]
+            fn = chk.M.function('Polynomial', chk.M.polynomial([m for m in pm if m[1].r != 0 or m[0] == []]))
+        elif coef[2] != 0:
+            ents = [(1, 2, c12)] if rep == 0 else [(2, 1, half(c12)), (1, 2, half(c12))]
+            fn = chk.M.function('Quadratic', chk.M.quadratic(ents, chk.M.linear(lin_terms, k)))
         else:
-            fn = chk.M.function('Linear', chk.M.linear([t for t in [(1, c1), (2, c2)] if t[1].r != 0], k))
+            fn = chk.M.function('Linear', chk.M.linear(lin_terms, k))
         sf = SymFn(monos)
         inbox = z3.And(*[z3.And(l <= x, x <= u) for (l, u), x in zip(ends, xs)])
         fx = sf.denote(lambda i: z3.ToReal(xs[i - 1]))
